@@ -21,7 +21,7 @@ def run(chk):
     # ---- R18.1
     n1 = 0
     for lead in (1, 2):
-        path = ('interp1d::Interp1DBuilder::build' if lead == 1 else 'interp2d::Interp2DBuilder::build')
+        path = ('Interp1DBuilder::build' if lead == 1 else 'Interp2DBuilder::build')
         b = anchor(chk, lib, path, 'R18.1')
         if b is None:
             continue
@@ -37,8 +37,8 @@ def run(chk):
                 chk.ob('R18.1', "%s: invalid input (%s) never reaches the strategy's build (%d calls)" % (key, sorted(viol), len(m.builds)),
                        not m.builds, b['span'], key + '-not-called')
             else:
-                ok = len(m.builds) == 1 and m.builds[0]['self'] is bv.fields['strategy'] and m.builds[0]['args'][-1] is bv.fields['data'] and \
-                    m.builds[0]['args'][0] is bv.fields['x'] and (lead == 1 or m.builds[0]['args'][1] is bv.fields['y'])
+                ok = len(m.builds) == 1 and m.builds[0]['self'] is bv.parts['strategy'] and m.builds[0]['args'][-1] is bv.parts['data'] and \
+                    m.builds[0]['args'][0] is bv.parts['x'] and (lead == 1 or m.builds[0]['args'][1] is bv.parts['y'])
                 chk.ob('R18.1', "%s: the strategy's build receives the builder's own x%s and data" % (key, ', y' if lead == 2 else ''), ok, b['span'], key + '-args')
                 if scn['build'] == 'err' and outcome == 'return':
                     same = isinstance(out, Enum) and out.variant == 'Err' and deref_all(out.fields['0']) is m.err_token
@@ -94,8 +94,8 @@ def run(chk):
     # ---- R18.3 accessors
     range_tables(chk, lib, 'R18.3')
     for lead, path, args, want in (
-            (1, 'interp1d::Interp1D::index_point', ['k'], None), (2, 'interp2d::Interp2D::index_point', ['a', 'b'], None),
-            (1, 'interp1d::Interp1D::get_index_left_of', ['q'], [('x', 'q')]), (2, 'interp2d::Interp2D::get_index_left_of', ['qx', 'qy'], [('x', 'qx'), ('y', 'qy')])):
+            (1, 'Interp1D::index_point', ['k'], None), (2, 'Interp2D::index_point', ['a', 'b'], None),
+            (1, 'Interp1D::get_index_left_of', ['q'], [('x', 'q')]), (2, 'Interp2D::get_index_left_of', ['qx', 'qy'], [('x', 'qx'), ('y', 'qy')])):
         b = anchor(chk, lib, path, 'R18.3')
         if b is None:
             continue
